@@ -495,6 +495,34 @@ func Run(dir, tier string, seed int64) error {
 				}
 			}
 		}
+		// -- attribute query that names attributes: the filter loop of makeAttributeQueryResponse (translated by go2v) against the
+		// real answer: one standard attribute, the custom one, one the user does not have, one with another NameFormat
+		if legal(h) {
+			esc := idp.EscAttr
+			basic := "urn:oasis:names:tc:SAML:2.0:attrname-format:basic"
+			type qa struct{ name, format string }
+			queried := []qa{{"Email", basic}, {h + "#cname", h + "#cformat"}, {"NoSuchAttribute", basic}, {"UserName", "urn:other:format"}}
+			var qx strings.Builder
+			var qd []string
+			for _, q := range queried {
+				qx.WriteString(`<saml:Attribute Name="` + esc(q.name) + `" NameFormat="` + esc(q.format) + `"/>`)
+				qd = append(qd, dObj("saml.AttributeType", "Name", dStr(q.name), "NameFormat", dStr(q.format)))
+			}
+			aq2 := `<soap:Envelope xmlns:soap="http://schemas.xmlsoap.org/soap/envelope/"><soap:Body><samlp:AttributeQuery xmlns:samlp="urn:oasis:names:tc:SAML:2.0:protocol" xmlns:saml="urn:oasis:names:tc:SAML:2.0:assertion" ID="` + esc(h+"#id2") + `" Version="2.0" IssueInstant="2024-01-01T00:00:00Z"><saml:Issuer>` + sso.SPEntity + `</saml:Issuer><saml:Subject><saml:NameID>alice</saml:NameID></saml:Subject>` + qx.String() + `</samlp:AttributeQuery></soap:Body></soap:Envelope>`
+			if rep := env.Do(idp.ReqSpec{Method: http.MethodPost, Path: "/attribute", RawBody: &aq2}.HTTP()); rep.Msg != nil && rep.Code == 200 {
+				if t, _, err := rawTree(rep.Msg); err == nil {
+					if resp := t.find("Response"); resp != nil {
+						run.Res.Evaluations++
+						run.Count("built=attribute-response-filtered")
+						args := []string{dStr(h + "#id2"), dStr(idpEntity), dStr(sso.SPEntity), dAttributes(u, []string{sanitize(h + "#cname")}), dList(qd), dStr("format"), "DNil"}
+						run.AddCase(id, builtCase(id, "makeAttributeQueryResponse", "None", args, "samlp.ResponseType", resp), map[string]interface{}{"flow": "attribute-response-filtered", "builder": "makeAttributeQueryResponse", "input": desc(), "document": string(rep.Msg)})
+						id++
+					}
+				}
+			} else {
+				run.Count("no-message:attribute-response-filtered")
+			}
+		}
 		// -- metadata: organisation and contact person from the configuration
 		if rep := env.Do(idp.ReqSpec{Method: http.MethodGet, Path: "/metadata"}.HTTP()); rep.Code == 200 {
 			mvals := []string{h + "#on", h + "#od", h + "#ou", h + "#cc", h + "#cg", h + "#cs", h + "#ce", h + "#ct"}
